@@ -68,6 +68,8 @@ class Run:
         self.max_size = None
         self.pool = None
         self.sched = None
+        self.seen_objs = {}
+        self.created_while_idle_available = []
 
     def v(self, oracle, tid=None, **detail):
         if len(self.violations) < 5:
@@ -96,6 +98,16 @@ class Run:
         ids = [id(o) for o in used] + [id(o) for o in free]
         if len(set(ids)) != len(ids):
             self.v("connection-listed-twice", t.tid, used=len(used), free=len(free))
+        # bookkeeping for C09 under threads (not a C08 verdict): a new pooled object may only be created when no
+        # idle one is available (the pool scans all idle ones, discarding those that idled out)
+        for o in used:
+            if id(o) not in self.seen_objs:
+                self.seen_objs[id(o)] = o        # strong reference: a destroyed object's id must not be recycled
+                if free:
+                    self.created_while_idle_available.append({"step": s.step, "thread": t.tid, "idle": len(free),
+                                                              "now": self.world.clock.now})
+        for o in free:
+            self.seen_objs[id(o)] = o
 
 
 def build(scn):
@@ -205,6 +217,8 @@ def pool_op(run, tid, st, held):
 
 
 def execute(scn):
+    if not sched._registered["codes"]:
+        sched.install([_pool.ObjectPool, _base.PooledClient])     # per-instruction events for the pool code
     run = build(scn)
     w = run.world
     th = scn["threads"]
@@ -564,5 +578,4 @@ class C08(Prop):
                 "violations": res.violations[:3]}
 
 
-sched.install([_pool.ObjectPool, _base.PooledClient])
 PROP = C08()
